@@ -15,7 +15,7 @@ import time
 from concurrent.futures import ThreadPoolExecutor
 
 from .common import VERIF, Ctx, InfraError
-from .sysmap import MapError, deps_of, map_events, model_case
+from .sysmap import MapError, deps_of as _deps_of, map_events, model_case, rejected_of
 
 PY = sys.executable
 
@@ -185,6 +185,13 @@ def run_many(scens: list, jobs: int = 10) -> list:
 # judging one run
 
 
+_REJ = set()
+
+
+def deps_of(call):
+    return _deps_of(call, _REJ)
+
+
 def expected_values(scen):
     """Sequential evaluation of the program (E.4): value or ('err', first failing ancestor)."""
     from .sysmap import plain_sum
@@ -213,6 +220,8 @@ def judge(model, scen: dict, out: dict) -> dict:
     if "events" not in out:
         raise InfraError("runner produced no trace: " + str(out.get("stderr"))[:1500])
     obs = out["obs"]
+    global _REJ
+    _REJ = rejected_of(scen, obs=obs, events=out["events"])
     if not os.path.realpath(obs["pin_parent"]).startswith(os.path.realpath(os.environ.get("VERIF_REPO", "/repo")) + os.sep):
         raise InfraError("runner imported executorlib from " + obs["pin_parent"])
     for line in out.get("fnlog", []):
